@@ -2,6 +2,7 @@
 From Coq Require Import List NArith ZArith Bool.
 Import ListNotations.
 From PF Require Import Opcodes RefTable Config Sim Lex Entropy Mutators Gen.
+From PF Require Import SrcStdlibP.
 From PF.proofs Require Import EntropyP MutatorsP Total.
 Local Open Scope N_scope.
 
@@ -20,6 +21,14 @@ Theorem C09_total : forall e c src, env_ok e -> cfg_in_range c ->
     /\ g_out r <> [] /\ last (g_out r) 0 = ref_code STOP.
 Proof. exact generate_internal_total. Qed.
 Print Assumptions C09_total.
+
+(* ... with the name table of the CURRENT source: env_ok (non-empty, shorter than 2^64) is decided over
+   the regenerated table by SrcStdlibP.src_env_ok *)
+Theorem C09_total_src : forall fmt c src, cfg_in_range c ->
+  exists r, generate_internal (src_env fmt) id_order c src = Ok r
+    /\ g_out r <> [] /\ last (g_out r) 0 = ref_code STOP.
+Proof. intros fmt c src Hc. exact (C09_total (src_env fmt) c src (src_env_ok fmt) Hc). Qed.
+Print Assumptions C09_total_src.
 
 Theorem C09_step : forall e c s o src, env_ok e -> memo_len s < M64 -> o <> FRAME ->
   exists em s' src', emit_and_process e id_order c s o src = Ok (em, s', src')
